@@ -132,6 +132,7 @@ def merge_fn(acc, part):
         a[1] += v[1]
     acc["canaries"] += part.get("canaries", 0)
     acc["canary_proved"] += part.get("canary_proved", 0)
+    acc["infeasible_full"] = acc.get("infeasible_full", 0) + part.get("infeasible_full", 0)
     if part["status"] != "ok" and acc["status"] == "ok":
         acc["status"] = part["status"]
         acc["message"] = part["message"]
@@ -500,6 +501,10 @@ def main(argv=None):
             crashes.append(f"bounded {b.get('name')}: {b.get('status')}: {b.get('stderr', '')[-300:]}")
             continue
         bounded_cases += b.get("cases", 0)
+        # an ASSUMED contract (one the deductive part relies on but cannot discharge) that the bounded check finds broken:
+        # the proof no longer applies to this tree -> undecided; whether the property itself broke is for the other checks
+        for f in b.get("assumption_failures", [])[:3]:
+            undecided.append(f"bounded {b.get('name')}: assumed contract no longer holds on this tree: {json.dumps(f, sort_keys=True)[:300]}")
         for f in b.get("failures", [])[:5]:
             kf = None
             for k in known:
